@@ -140,7 +140,6 @@ def r1(fx):
     fx.info['C15 functions'] = n
     fx.info['C15 mutation sites'] = sum(f.sites for f in P.fns.values())
     fx.info['C15 fixed-point rounds'] = P.rounds
-    # module-level code after import: only cli's table filling loop writes module state
     for m, tree in fx.forest.trees.items():
         writers_ = []
         for st in tree.body:
@@ -150,8 +149,9 @@ def r1(fx):
                         for t in (x.targets if isinstance(x, ast.Assign) else [x.target]):
                             if isinstance(t, ast.Subscript):
                                 writers_.append(ast.unparse(t.value))
-        want = ['_EXT_TO_KW_MAPPING'] if m == 'cli' else []
-        yield Ob(f'{m}: import-time writers of module tables', sorted(set(writers_)) == want, m, 0, sorted(set(writers_)), want, True)
+        # statements at module level run once, at import: tables they fill are part of the module's initial state (recorded as
+        # coverage; what must not happen is a write from a function, decided above)
+        fx.info.setdefault('C15 tables filled at import time', {})[m] = sorted(set(writers_))
 
 
 @rule('C15', 'R2', 40, 'API entry points mutate none of their arguments (except self in constructors); a serialiser never mutates the matrix')
